@@ -73,3 +73,44 @@ Definition dcheck (c : dcase) : bool :=
   | None, None => true
   | _, _ => false
   end.
+
+(* ---- product-space operators (C03/PModel.v) ---- *)
+From Verif Require Import C03.PModel.
+Inductive pkind :=
+| PKpso (ents : list (@entry QV)) (dom ran : list (nat * nat))     (* ProductSpaceOperator / Diagonal *)
+| PKbroadcast (ops : list (@op QV)) (dom : nat * nat) (ran : list (nat * nat))
+| PKreduction (ops : list (@op QV)) (dom : list (nat * nat)) (ran : nat * nat)
+| PKproj (i : nat) | PKprojadj (i : nat) (ran : list (nat * nat)).
+(* what the implementation returned: the parts of the result (identity as for IElem) or an error *)
+Inductive pout := POk (parts : list (option nat * list QV)) | PErr (e : err).
+Record pcase := {
+  p_store : list ((nat * nat) * list QV);
+  p_kind : pkind;
+  p_x : list nat;                  (* parts of x (one part for a flat argument) *)
+  p_out : option (list nat);
+  p_res : pout;
+  p_post : list (list QV) }.
+
+Definition part_ok (n0 : nat) (s : list ((nat * nat) * list QV)) (i : nat) (p : option nat * list QV) : bool :=
+  (match fst p with Some j => (i =? j)%nat | None => (n0 <=? i)%nat end)
+  && (match rd s i with Some (_, d) => oqs_close (snd p) d | None => false end).
+Definition prun (k : pcase) : @outcome QV (list nat) :=
+  match p_kind k, p_x k, p_out k with
+  | PKpso ents dom ran, xs, out => pso_call junkQ ents dom ran xs out (p_store k)
+  | PKbroadcast ops dom ran, [x], out => pso_call junkQ (broadcast_entries ops) [dom] ran [x] out (p_store k)
+  | PKreduction ops dom ran, xs, None => pso_call junkQ (reduction_entries ops) dom [ran] xs None (p_store k)
+  | PKreduction ops dom ran, xs, Some [o] => pso_call junkQ (reduction_entries ops) dom [ran] xs (Some [o]) (p_store k)
+  | PKproj i, xs, None => match cproj_oop i xs (p_store k) with Ok r s => Ok [r] s | Err e s => Err e s end
+  | PKproj i, xs, Some [o] => match cproj_ip i xs o (p_store k) with Ok _ s => Ok [o] s | Err e s => Err e s end
+  | PKprojadj i ran, [x], None => cpadj_oop i ran x (p_store k)
+  | PKprojadj i ran, [x], Some outs =>
+      match cpadj_ip i x outs (p_store k) with Ok _ s => Ok outs s | Err e s => Err e s end
+  | _, _, _ => Err EOther (p_store k)
+  end.
+Definition pcheck (k : pcase) : bool :=
+  let n0 := List.length (p_store k) in
+  match prun k, p_res k with
+  | Ok l s', POk parts => all2 (part_ok n0 s') l parts && post_ok s' (p_post k)
+  | Err e s', PErr e' => err_eqb e e' && post_ok s' (p_post k)
+  | _, _ => false
+  end.
